@@ -172,6 +172,14 @@ class Vector():
 		self._display_as_row = as_row
 		self._wild = True
 
+		# Python runs __init__ a second time on the already initialised Table that
+		# Vector.__new__ returns for a sequence of vectors: forget the registration
+		# of the storage that is about to be replaced, or it stays behind as a stale
+		# entry for a live object.
+		previous = self.__dict__.get('_underlying')
+		if previous is not None:
+			_ALIAS_TRACKER.unregister(self, id(previous))
+
 		# We check self.__dict__ directly to avoid triggering Table.__getattr__
 		# which would crash because the table isn't initialized yet.
 		if '_precomputed_data' in self.__dict__:
